@@ -119,13 +119,17 @@ def do_step(step, root):
         st0 = conv.process(overwrite=False)
         pre = {"status": int(st0), "changed": [d[0] for d in snap_diff(s0, snapshot(root))][:6]}
     first_exc = None
-    if step.get("retry_same_object"):
-        # the call fails with an exception (the injected fault is one-shot); the caller catches it and forces a re-run
-        # on the SAME converter object - state the failed call left in the object must not leak into the new output
+    if step.get("retry_new_object"):
+        # the call fails with an exception (the injected fault is one-shot); the calling script catches it and forces a
+        # re-run with a NEW converter object in the same interpreter (a retry loop): a fresh object starts from the disk,
+        # whatever the failed one still holds (open handles, registered exit handlers) must not hurt the new run's output
         try:
             status = conv.process(overwrite=step["overwrite"])
         except (Exception, KeyboardInterrupt) as e:
             first_exc = type(e).__name__
+            ap2 = ap if ap.exists() else (ap.with_suffix(".cbin") if ap.with_suffix(".cbin").exists() else ap)
+            conv = neuropixel.NP2Converter(ap2, post_check=step["post_check"], delete_original=step["delete_original"], compress=step["compress"])
+            conv.init_params(nwindow=step["nwindow"], extra=step.get("extra") or None, nshank=step.get("nshank") or None)
             status = conv.process(overwrite=True)
     else:
         status = conv.process(overwrite=step["overwrite"])
@@ -221,8 +225,12 @@ def _gen_step(r, nfaults, first):
         st["pre_noop_call"] = True
         st["overwrite"] = True
         st["fault"] = None
-    r.random()      # (draw kept: until session 3 a share of faulted calls were retried on the SAME converter object after the exception;
-    #                  removed as a false alarm - the state of a converter whose call failed is unspecified, see DESIGN 8.2)
+    if st["fault"] is not None and r.random() < 0.2:
+        # the fault is delivered as an exception, caught by the calling script, which forces a re-run with a NEW converter
+        # object in the same interpreter (retrying on the SAME object was tried and withdrawn as a false alarm, DESIGN 8.2)
+        st["retry_new_object"] = True
+        st["fault"] = dict(st["fault"], kinds=["io_error", "short", "interrupt"], no_persistent=True)
+        st["delete_original"] = False
     if st["fault"] is None and not st.get("pre_noop_call") and r.random() < 0.1:
         # one converter object: trial conversion of the first samples, then init_params() again and the real run
         st["pre_trial"] = r.choice([600, 1000, 1200])
@@ -617,8 +625,8 @@ def _exec_step(W, st, model, log, stats, bump, seed):
                         f"process returned {status} (did nothing) but the tree changed: {[c[0] for c in changed][:8]} | " + ctx)
     forced = st["overwrite"]
     if out and "ok" in out and out["ok"].get("first_exc"):
-        bump("probes", "failed_call_then_forced_rerun_on_the_same_object")
-        forced = True           # the judged call is the forced re-run that followed the failed one on the same object
+        bump("probes", "failed_call_then_forced_rerun_with_a_new_object_in_the_same_interpreter")
+        forced = True           # the judged call is the forced re-run that followed the failed one
     partial = bool(st.get("nshank"))
     if partial:
         bump("probes", "partial_shank_run")
